@@ -79,7 +79,11 @@ func (w *verifSink) Write(p []byte) (int, error) {
 func (w *verifSink) Close() error { w.closed = true; return nil }
 
 func verifSplitChan(r io.Reader, w io.WriteCloser) split {
-	return split{split: '\n', wc: w, buf: bufio.NewReaderSize(r, 16)}
+	return verifSplitChanOn('\n', r, w)
+}
+
+func verifSplitChanOn(sb byte, r io.Reader, w io.WriteCloser) split {
+	return split{split: sb, wc: w, buf: bufio.NewReaderSize(r, 16)}
 }
 
 func verifHdrChan(mtype string, r io.Reader, w io.WriteCloser) *hdr {
@@ -124,7 +128,8 @@ func Harness_C11_split() {
 	if thorough() {
 		maxRecs = 3
 	}
-	recs := verifRecords(maxRecs, maxLen, '\n')
+	sb := []byte{'\n', 0xff, 0x00, 0x1e}[nondetChoice("split-byte", 4)]
+	recs := verifRecords(maxRecs, maxLen, int(sb))
 	if nondetBool("long-record") {
 		// one record longer than (or exactly one or two times) the bufio buffer:
 		// the ErrBufferFull continuation, with the delimiter alone in a chunk
@@ -134,15 +139,15 @@ func Harness_C11_split() {
 			long[i] = 'a' + byte(i%26)
 		}
 		long[n-1] = nondetByte("long-last")
-		assume(long[n-1] != '\n')
+		assume(long[n-1] != sb)
 		recs = append(recs, long)
 	}
 	sink := &verifSink{}
-	tx := verifSplitChan(nil, sink)
+	tx := verifSplitChanOn(sb, nil, sink)
 	for _, r := range recs {
 		vassert(tx.Send(append([]byte{}, r...)) == nil, "C11: Send accepts a record without the split byte")
 	}
-	rx := verifSplitChan(newVerifStream(sink.buf), nil)
+	rx := verifSplitChanOn(sb, newVerifStream(sink.buf), nil)
 	for _, want := range recs {
 		got, err := rx.Recv()
 		cp := append([]byte{}, got...)
@@ -159,21 +164,23 @@ func Harness_C11_split() {
 // Harness_C11_split_guard: a record containing the split byte is refused and
 // nothing is written.
 func Harness_C11_split_guard() {
+	sb := nondetByte("split-byte") // Split(b) takes any byte, not only '\n'
 	r := nondetBytes("record", 3)
 	has := false
 	for _, b := range r {
-		if b == '\n' {
+		if b == sb {
 			has = true
 		}
 	}
 	sink := &verifSink{}
-	tx := verifSplitChan(nil, sink)
+	tx := verifSplitChanOn(sb, nil, sink)
 	err := tx.Send(r)
 	if has {
 		vassert(err != nil && sink.writes == 0 && len(sink.buf) == 0, "C11: Send refuses, writing nothing, a record containing the split byte")
 		reach("refused")
 	} else {
 		vassert(err == nil && len(sink.buf) == len(r)+1, "C11: a representable record is written with its delimiter")
+		vassert(sink.buf[len(r)] == sb, "C11: the delimiter is the split byte")
 		reach("accepted")
 	}
 }
